@@ -99,7 +99,7 @@ def run(ctx):
     outp = os.path.join(ctx.build, "c19.out.ndjson")
     vf.write_ndjson(scnp, scns)
     ctx.run_harness(binp, "TestVerifC19Replay", env=dict(VERIF_SCN=scnp, VERIF_OUT=outp,
-                    VERIF_PARSE_EVERY=40 if q else 25, VERIF_RENDERINGS=3 if q else 100), timeout=3000)
+                    VERIF_PARSE_EVERY=40 if q else 25, VERIF_RENDERINGS=3 if q else 5), timeout=3000)
     res = vf.read_ndjson(outp)
     summ = _summary(res, "replay")
     _report_mismatches(ctx, res)
@@ -141,8 +141,9 @@ def run(ctx):
         "TLC proves the design theorems exhaustively on a scaled-down varint arithmetic and on the real-number grid; the "
         "generator enumerates the grid (60 base classes x 13 existing-data classes x offsets -W..W, offsets that put the "
         "required padding within +-4 of 0 / 2^7 / 2^14 (/ 2^21, 2^28), invalid directives, types without the field) and "
-        "every scenario is rendered into real requests of each of the 5 message types x 2 contents (response data, "
-        "unknown field) and run through the real expandRequestData (a sample also through parseTestSuites); whole test "
+        "every scenario is rendered into real requests (3 in quick, 5 in thorough of the 10 renderings = 5 message types x 2 "
+        "contents - response data / unknown field -, rotating so that all are used) and run through the real "
+        "expandRequestData (a sample also through parseTestSuites); whole test "
         "cases (<=3 messages x <=3 directives from pools) likewise. Non-trivial = the statement requires a changed "
         "padding length or a rejection for unreachability (single) / at least one sized directive (case) / an RPC with "
         "a message within 1 byte of the limit (sharpness). Recorded executions (seeded random requests; real RPCs "
@@ -164,10 +165,6 @@ def _tlc_rejects(ctx, recs, path):
     if not tr.lines("CONSUMED "):
         raise vf.Machinery("trace spec did not consume the whole trace")
     return [recs[int(ln) - 1] for ln in tr.lines("REJECT ")]
-
-
-def _expected_one(r):
-    return "(see Trace_Padding!AcceptOne)"
 
 
 def _record(ctx, binp):
